@@ -127,9 +127,17 @@ func injected(kind string) error {
 		return fmt.Errorf("storage: %w", context.Canceled)
 	case "notfound":
 		return fmt.Errorf("storage: not found: %w", errNotFound)
+	case "uncomparable":
+		// an error whose dynamic type cannot be compared with == (a list of errors, as a cluster client reports them)
+		return nodeErrors{ErrInjected, errNotFound}
 	}
 	return ErrInjected
 }
+
+type nodeErrors []error
+
+func (e nodeErrors) Error() string { return fmt.Sprintf("storage: %d nodes failed: %v", len(e), e[0]) }
+func (e nodeErrors) Unwrap() []error { return e }
 
 var errNotFound = errors.New("no such record")
 
@@ -399,7 +407,7 @@ func (s *Store) keyResult(op, name string) (*key.CertificateAndKey, error) {
 	switch kind {
 	case "":
 		return &key.CertificateAndKey{Certificate: k.CertDER, Key: k.RSA}, nil
-	case "error", "timeout", "canceled", "notfound":
+	case "error", "timeout", "canceled", "notfound", "uncomparable":
 		c.Err = ErrInjected.Error()
 		return nil, injected(kind)
 	case "errval":
